@@ -57,3 +57,30 @@ theorem drain_append (S : Splitter E F) (a c : Bytes) :
     simp
 
 end Esp
+
+namespace Esp
+variable {E F : Type}
+
+/-- for a splitter whose "bad" verdicts are prefix-stable (noise: the marker byte), an error
+found while draining `a` is found, at the same place, while draining `a ++ c` -/
+theorem drain_append_bad (S : Splitter E F)
+    (hstab : ∀ b c e, S.parseOne b = .bad e → S.parseOne (b ++ c) = .bad e) (a c : Bytes) :
+    ∀ es b e, drain S a = (es, b, some e) → drain S (a ++ c) = (es, b ++ c, some e) := by
+  induction a using drain.induct S with
+  | case1 => intro es b e h; rw [drain_nil] at h; simp at h
+  | case2 buf hne hp => intro es b e h; rw [drain_need S buf hne hp] at h; simp at h
+  | case3 buf hne e' hp =>
+    intro es b e h
+    rw [drain_bad S buf e' hne hp] at h
+    simp only [Prod.mk.injEq, Option.some.injEq] at h
+    obtain ⟨rfl, rfl, rfl⟩ := h
+    exact drain_bad S (buf ++ c) e' (by simp [hne]) (hstab _ _ _ hp)
+  | case4 buf hne f rest hp hlt ih =>
+    intro es b e h
+    rw [drain_frame S buf f rest hp] at h
+    simp only [Prod.mk.injEq] at h
+    obtain ⟨rfl, rfl, hsome⟩ := h
+    have ih' := ih (drain S rest).1 (drain S rest).2.1 e (by rw [← hsome])
+    rw [drain_frame S (buf ++ c) f (rest ++ c) (S.stable_frame buf c f rest hp), ih']
+
+end Esp
